@@ -207,6 +207,8 @@ def run(ctx):
         v = v.args[0]
     if isinstance(v, ast.BoolOp) and isinstance(v.op, ast.Or):
         atoms = {norm(x) for x in v.values}
+    elif v is not None:
+        atoms = {norm(v)}
     text_atoms = {"self._element.text"}
     child_atoms = {"len(self._element)", "self._childNodes", "len(self._childNodes)", "len(self._element) > 0"}
     filtered = any(isinstance(x, (ast.GeneratorExp, ast.ListComp)) and (x.generators[0].ifs or not isinstance(x.elt, ast.Name) and "Comment" in norm(x))
